@@ -26,6 +26,7 @@ func Run(o *drv.Out) {
 	CorpusLockFromOtherPhase(o, "propose")
 	CorpusLockFromOtherPhase(o, "election-vote")
 	CorpusLeaderLockDowngraded(o)
+	CorpusLeaderCertFromEarlierRoot(o)
 	CorpusCommitteeChange(o, "lock-carried-over")
 	CorpusCommitteeChange(o, "bitmap-for-other-committee")
 	// randomised members of the re-lock family (roles, leaders, gaps); many more when an obligation broke
@@ -562,7 +563,15 @@ func byzPhase(r *run, rng *rand.Rand, i int, lvl chaos) {
 					}
 				}
 				if len(cands) > 0 {
-					s.ByzSwapQC(i, envs, cands[rng.Intn(len(cands))])
+					pick := cands[rng.Intn(len(cands))]
+					// prefer a certificate of the same round number and phase from an earlier root height, when one travelled
+					for _, c := range cands {
+						if c.Header.Round == cur.Round && c.Header.Phase == cur.Phase && c.Header.RootHeight < cur.RootHeight && rng.Intn(2) == 0 {
+							pick = c
+							r.o.Count("byz:leader-certificate-same-round-earlier-root:" + kind)
+						}
+					}
+					s.ByzSwapQC(i, envs, pick)
 					r.log("byz %d swaps the certificate of its %s message for a stale one", i, kind)
 					r.o.Count("byz:stale-certificate:" + kind)
 				}
